@@ -199,6 +199,11 @@ func c14AddTypes(r *rand.Rand, base *model.Schema, tag string) c14Load {
 		{"addtypes-fail-duplicate", "object ZzNew {a: Int}, union Query (duplicate name)", "fail", []func() ggql.Type{obj("ZzNew"+tag, "a", "Int"), func() ggql.Type { return &ggql.Union{Base: ggql.Base{N: "Query"}} }}},
 		{"addtypes-fail-reserved-name", "object ZzNew {a: Int}, object ZzRes {__x: Int}", "fail", []func() ggql.Type{obj("ZzNew"+tag, "a", "Int"), obj("ZzRes"+tag, "__x", "Int")}},
 		{"addtypes-fail-empty-object", "object " + rootName + " {zzRoot: String}, object ZzEmpty {}", "fail", []func() ggql.Type{obj(rootName, "zzRoot"+tag, "String"), obj("ZzEmpty" + tag)}},
+		{"addtypes-enum-named-like-a-root-type", "enum " + rootName + " {A}", "either", []func() ggql.Type{func() ggql.Type {
+			e := &ggql.Enum{Base: ggql.Base{N: rootName}}
+			_ = e.AddValue(&ggql.EnumValue{Value: ggql.Symbol("A")})
+			return e
+		}}},
 		{"addtypes-valid", "object ZzOk {a: Int, b: Query}", "either", []func() ggql.Type{obj("ZzOk"+tag, "a", "Int", "b", "Query")}},
 		{"addtypes-valid-root-type", "object " + rootName + " {zzRoot: Int}", "either", []func() ggql.Type{obj(rootName, "zzRoot"+tag, "Int")}},
 	}
